@@ -45,7 +45,7 @@ def sim_replay(v, path):
         v.violation("replay.txt", open(path).read())
 
 
-def snapshot_check(walk, routes):
+def snapshot_check(walk, routes, fp=False):
     def run(v, tier, seed):
         scen, impl, model, bad = snap_suite.run_snapshot(v, tier, seed, walk=walk)
         snap_suite.report(v, bad, "snapshot", monitor=snap_suite.snapshot_timer_monitor)
@@ -67,6 +67,8 @@ def snapshot_check(walk, routes):
             n += snap_suite.judge_sim_path_covered(v, scen, impl, model, "snapshot", D1)
         if routes:
             n += snap_suite.run_two_routes(v, tier, seed)
+        if fp:
+            n += snap_suite.fp_probe(v, tier, seed)
         return n
     return run
 
@@ -118,19 +120,20 @@ PROPS = {
             "partial": "cross-process determinism of DefaultHasher/Pcg64 and the order of equal-depth start states are observed, not proved; "
                        "the theorems cover the hash-order independence of dump_events/snapshot and of crash_node"},
     "C04": {"ready": True, "partial": PARTIAL_D1 + "; the step-by-step inclusion of a simulated execution in the reduced reference semantics (R4, sim_step_refines_partial) is proved for fault rates zero and without crash/recover during the run; with positive rates or crashes it is checked on the implementation (simulated walks) only",
-            "replay": sim_replay, "suites": [snapshot_check(walk=10, routes=False)]},
+            "replay": sim_replay, "suites": [snapshot_check(walk=10, routes=False, fp=True)]},
     "C05": {"ready": True, "replay": sim_replay,
             "suites": [sim("sim_network", "C05", dict(p_fault=0.6, p_link=0.6, p_crash=0.1, nodes=(2, 3), procs=(2, 4)),
                            nontrivial=lambda st: st["received"] and (st["faults_on"] or st["links"]),
                            extra=lambda rng, tier: [(f"lm{i}", sim_suite.gen_link_matrix(rng)) for i in range(300 if tier == "quick" else 6000)])]},
     "C06": {"ready": True, "replay": sim_replay,
             "suites": [sim("sim_time", "C06", dict(p_random_delay=0.7, p_skew=0.6, p_clock=0.4, p_crash=0.1),
-                           nontrivial=lambda st: st["received"] and st["timers_fired"])]},
+                           nontrivial=lambda st: st["received"] and st["timers_fired"],
+                           extra=lambda rng, tier: [(f"sk{i}", sim_suite.gen_skew_recover(rng)) for i in range(150 if tier == "quick" else 3000)])]},
     "C08": {"ready": True, "replay": sim_replay,
             "suites": [sim("sim_crash", "C08", dict(p_crash=0.9, nodes=(2, 3), procs=(2, 4), ops=(10, 24)),
                            nontrivial=lambda st: st["crash"] and st["received"],
                            extra=lambda rng, tier: [(f"cb{i}", sim_suite.gen_crash_burst(rng)) for i in range(150 if tier == "quick" else 3000)])]},
-    "C15": {"ready": True, "replay": sim_replay, "suites": [snapshot_check(walk=0, routes=True)]},
+    "C15": {"ready": True, "replay": sim_replay, "suites": [snapshot_check(walk=0, routes=True, fp=True)]},
     "C17": {"ready": True, "replay": sim_replay,
             "partial": "whole-run invariants are proved for the per-process logs/counters (LogInv) and the global trace (TraceInv: ids, network counters, traffic, single fate exactly for duplication-free sends, at most 3 otherwise); the times recorded in entries and the per-copy fate under duplication are judged by the monitor and the bit-exact correspondence",
             "suites": [sim("sim_logs", "C17", dict(p_fault=0.5, p_crash=0.4, p_link=0.3, nodes=(2, 3), procs=(2, 4)),
